@@ -413,3 +413,5 @@ def run_extsplit(case, res):
 
 def run_case(case, res):
     {"standard": run_standard, "dimadaptive": run_dimadaptive, "dimwise": run_dimwise, "extsplit": run_extsplit}[case["gen"]](case, res)
+
+RULE += (" " + 'Integer-valued integrands; a third of the adaptive histories is quiet (judged on the final state only); typed domains.')
